@@ -849,7 +849,7 @@ func (self *LockDB) checkMillisecondTimeOut(ms int64, glockIndex uint16) {
 		nodeQueues := lockQueue.IterNodeQueues(int32(i))
 		for j, lock := range nodeQueues {
 			if !lock.timeouted {
-				lock.timeoutTime = lock.startTime + int64(lock.command.Timeout/1000) + 1
+				lock.timeoutTime = lock.startTime + (int64(lock.command.Timeout)+999)/1000 + 1
 				if lock.command.Timeout >= MILLISECOND_QUEUE_LENGTH {
 					self.AddTimeOut(lock)
 					nodeQueues[j] = nil
@@ -1118,7 +1118,7 @@ func (self *LockDB) checkMillisecondExpried(ms int64, glockIndex uint16) {
 					nodeQueues[j] = nil
 					continue
 				}
-				lock.expriedTime = lock.startTime + int64(lock.command.Expried/1000) + 1
+				lock.expriedTime = lock.startTime + (int64(lock.command.Expried)+999)/1000 + 1
 				if lock.command.Expried >= MILLISECOND_QUEUE_LENGTH {
 					self.AddExpried(lock)
 					nodeQueues[j] = nil
@@ -1914,7 +1914,7 @@ func (self *LockDB) doExpried(lock *Lock, forcedExpried bool, removeWaited bool)
 			if lock.command.ExpriedFlag&protocol.EXPRIED_FLAG_MINUTE_TIME != 0 {
 				deadline = lock.startTime + int64(lock.command.Expried)*60 + 1
 			} else if lock.command.ExpriedFlag&protocol.EXPRIED_FLAG_MILLISECOND_TIME != 0 {
-				deadline = lock.startTime + int64(lock.command.Expried)/1000 + 1
+				deadline = lock.startTime + (int64(lock.command.Expried)+999)/1000 + 1
 			}
 			if lock.expriedTime <= 0 || self.currentTime-deadline < EXPRIED_WAIT_LEADER_MAX_TIME {
 				wait := deadline + EXPRIED_WAIT_LEADER_MAX_TIME - self.currentTime
@@ -2965,7 +2965,7 @@ func (self *LockDB) DoAckLock(lock *Lock, succed bool) {
 				lock.expriedTime = lock.startTime + int64(lock.command.Expried) + 1
 			}
 		} else {
-			lock.expriedTime = lock.startTime + int64(lock.command.Expried)/1000 + 1
+			lock.expriedTime = lock.startTime + (int64(lock.command.Expried)+999)/1000 + 1
 		}
 
 		var lockData []byte = nil
